@@ -25,9 +25,9 @@ pub mod diagn {
         #[verifier::external_body]
         fn clone(&self) -> (r: Message) ensures r == *self { unimplemented!() }
     }
-    #[verifier::external_body]
+    /// stand-in for diagn::Span with its public field (the location pair stays private in the real type)
     #[derive(Clone, Copy)]
-    pub struct Span { _p: u8 }
+    pub struct Span { pub file_handle: util::FileServerHandle, pub location_standin: (usize, usize) }
     //@@ITEMS diagn
     }
 }
@@ -48,9 +48,9 @@ pub mod util {
     #[verifier::external_body]
     #[verifier::accept_recursive_types(T)]
     pub struct SymbolManager<T> { _p: core::marker::PhantomData<T> }
-    /// stand-in for util::SymbolDecl<T>: only the two fields the output checks read (for messages)
+    /// stand-in for util::SymbolDecl<T>: only the fields the verified functions read
     #[verifier::accept_recursive_types(T)]
-    pub struct SymbolDecl<T> { pub span: diagn::Span, pub name: String, pub item_ref: util::ItemRef<T> }
+    pub struct SymbolDecl<T> { pub span: diagn::Span, pub name: String, pub depth: usize, pub ctx: SymbolContext, pub item_ref: util::ItemRef<T> }
     impl<T> SymbolManager<T> {
         #[verifier::external_body]
         pub fn get(&self, item_ref: util::ItemRef<T>) -> &util::SymbolDecl<T> { unimplemented!() }
@@ -111,6 +111,7 @@ pub mod asm {
     pub type InstructionMatches = Vec<InstructionMatch>;
     pub struct ItemDecls {
         pub bankdefs: util::SymbolManager<asm::Bankdef>,
+        pub symbols: util::SymbolManager<asm::Symbol>,
     }
     //@@ITEMS asm
     }
@@ -134,7 +135,7 @@ pub mod asm {
         use crate::ispec::*;
         use vstd::arithmetic::power2::pow2;
         verus! {
-        broadcast use {crate::num_bigint::axiom_into_refl_obeys, crate::num_bigint::axiom_into_refl, crate::util::axiom_bigint_into_refl_obeys, crate::util::axiom_bigint_into_refl};
+        broadcast use {crate::num_bigint::axiom_into_refl_obeys, crate::num_bigint::axiom_into_refl, crate::util::axiom_bigint_into_refl_obeys, crate::util::axiom_bigint_into_refl, crate::std_gaps::axiom_vec_len_fits};
         //@@INCLUDE u_resolver/spec.rs
         //@@ITEMS resolver
         }
